@@ -64,8 +64,10 @@ type Ctx struct {
 	inlineHelpers bool
 	ftMemo        map[*types.Named][]*ssa.Function
 	faMemo        map[*ssa.Parameter][]*ssa.Function
-	extraCut      map[edge]bool                  // edges excluded for the current top-level guard query (a case split on a φ)
-	condEnv       Env                            // canonCond: the frame conditions are rendered in (nil: the function's own)
+	extraCut      map[edge]bool               // edges excluded for the current top-level guard query (a case split on a φ)
+	condEnv       Env                         // canonCond: the frame conditions are rendered in (nil: the function's own)
+	fnSubst       map[ssa.Value]*ssa.Function // guardViaTable: function-valued fields of the current table element
+	gsMemo        map[*ssa.Global]*ssa.Slice
 	boolOrigins   map[string]boolOrigin          // calleeEnvV: test results handed to callees as boolean arguments, by path
 	nameHandedOn  bool                           // calleeEnvV: a call result the callee hands on is named after the caller-side call value
 	phiEdgeLive   func(phi *ssa.Phi, i int) bool // optional: restricts φ edges when rendering canonical forms
